@@ -4,7 +4,6 @@ CONSTANTS
   NS = 2
   Part = "loop"
   MaxIdx = 3
-  Expand <- MCExpand
 INVARIANT TypeOK
 INVARIANT InvPartial
 INVARIANT InvConfluent
